@@ -50,6 +50,8 @@ def main(seed, argv):
         n = int(argv[argv.index("--n") + 1])
     elif full:
         n = 200
+    elif "--setup" in argv:
+        n = 8
     props = PROPS
     if "--props" in argv:
         props = argv[argv.index("--props") + 1].split(",")
